@@ -93,23 +93,32 @@ impl<'a> Parser<'a> {
     }
 
     fn parse_re(&mut self, ix: usize, depth: usize) -> Result<(usize, Expr)> {
+        let (ix, mut children) = self.parse_alternatives(ix, depth)?;
+        if children.len() > 1 {
+            return Ok((ix, Expr::Alt(children)));
+        }
+        Ok((ix, children.pop().unwrap()))
+    }
+
+    // the branches separated by `|` at this nesting level (at least one)
+    fn parse_alternatives(&mut self, ix: usize, depth: usize) -> Result<(usize, Vec<Expr>)> {
         let (ix, child) = self.parse_branch(ix, depth)?;
         let mut ix = self.optional_whitespace(ix)?;
+        let mut children = vec![child];
         if self.re[ix..].starts_with('|') {
-            let mut children = vec![child];
             while self.re[ix..].starts_with('|') {
                 ix += 1;
                 let (next, child) = self.parse_branch(ix, depth)?;
                 children.push(child);
                 ix = self.optional_whitespace(next)?;
             }
-            return Ok((ix, Expr::Alt(children)));
+            return Ok((ix, children));
         }
         // can't have numeric backrefs and named backrefs
         if self.numeric_backrefs && !self.named_groups.is_empty() {
             return Err(Error::CompileError(CompileError::NamedBackrefOnly));
         }
-        Ok((ix, child))
+        Ok((ix, children))
     }
 
     fn parse_branch(&mut self, ix: usize, depth: usize) -> Result<(usize, Expr)> {
@@ -774,7 +783,9 @@ impl<'a> Parser<'a> {
             self.parse_re(ix, depth)?
         };
         next = self.check_for_close_paren(next)?;
-        let (end, child) = self.parse_re(next, depth)?;
+        // Only a `|` at this nesting level separates the branches; an alternation inside a
+        // group, e.g. `(?(1)(?:a|b))`, belongs to the branch it is in.
+        let (end, mut alternatives) = self.parse_alternatives(next, depth)?;
         if end == next {
             // Backreference validity checker
             if let Expr::Backref(group) = condition {
@@ -789,22 +800,15 @@ impl<'a> Parser<'a> {
                 ));
             }
         }
-        let if_true: Expr;
-        let mut if_false: Expr = Expr::Empty;
-        if let Expr::Alt(mut alternatives) = child {
-            // the truth branch will be the first alternative
-            if_true = alternatives.remove(0);
-            // if there is only one alternative left, take it out the Expr::Alt
-            if alternatives.len() == 1 {
-                if_false = alternatives.pop().expect("expected 2 alternatives");
-            } else {
-                // otherwise the remaining branches become the false branch
-                if_false = Expr::Alt(alternatives);
-            }
-        } else {
+        // the truth branch is the first alternative
+        let if_true: Expr = alternatives.remove(0);
+        let if_false: Expr = match alternatives.len() {
             // there is only one branch - the truth branch. i.e. "if" without "else"
-            if_true = child;
-        }
+            0 => Expr::Empty,
+            1 => alternatives.pop().expect("expected 2 alternatives"),
+            // otherwise the remaining branches become the false branch
+            _ => Expr::Alt(alternatives),
+        };
         let inner_condition = if let Expr::Backref(group) = condition {
             Expr::BackrefExistsCondition(group)
         } else {
